@@ -589,11 +589,17 @@ class ID3FramesSpec(Spec):
     def read(self, header, frame, data):
         from ._tags import ID3Tags
 
+        header = copy.copy(header)
+        # sub-frames may embed frames themselves; bound the nesting so a
+        # crafted tag can't exhaust the stack
+        header._nesting = getattr(header, "_nesting", 0) + 1
+        if header._nesting > 16:
+            raise SpecError("frames nested too deep")
+
         if header.f_unsynch:
             # The tag (<= 2.3) or the enclosing frame (2.4) has already been
             # unsynch decoded at this point, so don't decode the sub-frames
             # a second time because of the tag-level flag
-            header = copy.copy(header)
             header._flags &= ~0x80
 
         tags = ID3Tags()
